@@ -121,6 +121,54 @@ def cli_flag_check(quick=True):
     return n, None
 
 
+def cli_forwarding_check(prop, quick=True):
+    """C05 / C11, bounded: the command-line front end hands --protocol and --min-opcodes/--max-opcodes to the generator
+    unchanged: the output of `--protocol P --min-opcodes a --max-opcodes b` passes the same byte-level checks as a
+    library call with that configuration.  Returns (n_runs, first_violation of `prop` or None)."""
+    import shutil
+    env = dict(os.environ, CARGO_NET_OFFLINE='true')
+    p = subprocess.run(['cargo', 'build', '--release', '--offline', '--quiet', '--manifest-path', os.path.join(REPO, 'Cargo.toml'),
+                        '--bin', 'pickle-fuzzer', '--target-dir', CLI_TARGET], env=env, capture_output=True, text=True)
+    if p.returncode != 0:
+        raise RuntimeError('CLI build failed: ' + p.stderr[-1500:])
+    exe = os.path.join(CLI_TARGET, 'release', 'pickle-fuzzer')
+    out = os.path.join(VERIF, 'build', 'cli-fwd' + SFX)
+    shutil.rmtree(out, ignore_errors=True)
+    os.makedirs(out)
+    n = 0
+    try:
+        for P in range(6):
+            for (a, b) in ((60, 300), (5, 9), (30, 30), (40, 10), (0, 0)):
+                for sd in range(4 if quick else 40):
+                    for extra in ([], ['--mutators', 'offbyone', 'stringlen', 'character', 'boundary', '--mutation-rate', '0.5']):
+                        f = os.path.join(out, 'one.pkl')
+                        cmd = [exe, f, '--protocol', str(P), '--seed', str(sd), '--min-opcodes', str(a), '--max-opcodes', str(b)] + extra
+                        r = subprocess.run(cmd, capture_output=True, text=True)
+                        n += 1
+                        if r.returncode != 0:
+                            if prop == 'C09':
+                                return n, (' '.join(cmd[1:]), 'C09 the command-line run failed: %s' % r.stderr[-200:])
+                            continue
+                        errs = refcheck.check_all(open(f, 'rb').read(), P, unsafe=False, ext=False, buffer=False, min_ops=a, max_ops=b)
+                        mine = [e for e in errs if e.startswith(prop)]
+                        if mine:
+                            return n, (' '.join(cmd[2:]), mine[0] + ' (command-line front end)')
+            d = os.path.join(out, 'batch')
+            shutil.rmtree(d, ignore_errors=True)
+            cmd = [exe, '--dir', d, '--samples', '24' if quick else '240', '--protocol', str(P), '--min-opcodes', '20', '--max-opcodes', '60']
+            r = subprocess.run(cmd, capture_output=True, text=True)
+            n += 1
+            if r.returncode == 0 and os.path.isdir(d):
+                for fn in sorted(os.listdir(d)):
+                    errs = refcheck.check_all(open(os.path.join(d, fn), 'rb').read(), P, unsafe=False, ext=False, buffer=False, min_ops=20, max_ops=60)
+                    mine = [e for e in errs if e.startswith(prop)]
+                    if mine:
+                        return n, (' '.join(cmd[1:]) + ' file ' + fn, mine[0] + ' (command-line front end, batch mode)')
+    finally:
+        shutil.rmtree(out, ignore_errors=True)
+    return n, None
+
+
 def cli_determinism_check(quick=True):
     """C07, bounded: the real command-line binary (single-file mode and rayon batch mode under different worker
     counts) returns the same bytes for the same --seed/--protocol/configuration in separate processes.
